@@ -140,7 +140,7 @@ class AndersonCD(BaseSolver):
 
             # re init AA at every iter to consider ws
             accelerator = AndersonAcceleration(K=5)
-            w_acc[:] = 0.
+            w_acc[:] = w  # coefficients outside the working set are not extrapolated
             # ws to be used in AndersonAcceleration
             ws_intercept = np.append(ws, -1) if self.fit_intercept else ws
 
